@@ -141,9 +141,10 @@ class SmtHarness(Harness):
         ctx = SmtCtx(self.bounds[tier], known, only)
         try:
             self.fn(ctx)
-        except Exception as e:   # Untranslatable, BoundExceeded, ...: harness error, never a violation
+        except Exception as e:   # Untranslatable, BoundExceeded, ...: harness error (exit 3), never a violation, never a pass
             ctx.res['inconclusive'].append(f'{type(e).__name__}: {e}')
             ctx.res['unknown'] += 1
+            ctx.res['error'] = f'the current source could not be translated/decided: {type(e).__name__}: {e}'
         res = ctx.finish()
         missing = [g for g in self.goals if g not in res['goals']]
         res['twins'] = {g: ('witnessed' if g in res['goals'] else 'NOT-REACHED') for g in self.goals}
